@@ -396,6 +396,11 @@ def units_C03(tier, seed):
         for tc in ('float', 'double'):
             U += unit(f'c03_cell_{n}_{tc}', H, f'lin_cell_h<{n},{tc}>()', 'BITS', sites=[1, 2, 3, 4], diff=(n == 2), weight=30 * n,
                       cfg={'query_timeout_ms': 300000})
+    # weights, bit-precise (every coordinate/stored precision pair; N=1: the per-axis weight itself)
+    for tc in ('float', 'double'):
+        for tst in ('float', 'double'):
+            U += unit(f'c03_weight_1_{tc}_{tst}', H, f'lin_weight_h<1,{tc},{tst}>()', 'BITS', sites=[1], diff=(tc == 'double' and tst == 'float'), weight=40,
+                      cfg={'query_timeout_ms': 600000}, timeout=1800)
     lat = [(1, 1, 'float', 'float'), (1, 3, 'double', 'float'), (2, 2, 'float', 'float'), (2, 1, 'float', 'double'), (3, 1, 'float', 'double'), (3, 2, 'double', 'double')]
     if th:
         lat += [(4, 1, 'float', 'float'), (3, 3, 'float', 'float'), (2, 4, 'double', 'float')]
